@@ -19,7 +19,8 @@
 // gen-self-end (tag gen-self-end-family; verdicts OVERLAP:join-before-commit-answered and
 // OVERLAP:close-before-commit-answered, see e2e_gf.go and hold.go); and (N >= 46) the "silent
 // step" family (mode p, tag silent-step-family, e2e_ss.go / sfake.go) and the "connect race" family
-// (modes t and w, tag connect-race-family, e2e_cr.go).
+// (modes t and w, tag connect-race-family, e2e_cr.go; incl. 2 t refresh-silent + w-refresh-silent,
+// tag refresh-silent-family).
 //
 // Timeline tokens (one total order): c<cid>:<f|r|m|t|w>  x<cid>  r<cid>:<msg|nil|eof|cp|ctx|oth>
 // C<k> D<k>  q<api>:<m>  j<m>.  A worker that reported HANG or LEAK exits (code 3) and the parent
@@ -195,7 +196,8 @@ func plan(seed int64, n int) []scen {
 		type sfam struct{ mode, kind, variant string }
 		want := []sfam{{"p", "silent-metadata", "ss"}, {"t", "setup-late-pool-closed", ""}, {"p", "silent-mid", "ss"}, {"t", "setup-late-pool-closed", "discover"},
 			{"p", "silent-accept", "ss"}, {"t", "setup-late-pool-open", ""}, {"p", "silent-metadata", "gf"}, {"t", "setup-fails-late", ""},
-			{"p", "silent-apiversions", "ss"}, {"t", "setup-late-pool-closed", ""}, {"p", "silent-fetch", "ss"}, {"w", "w-setup-late", ""}}
+			{"p", "silent-apiversions", "ss"}, {"t", "setup-late-pool-closed", ""}, {"p", "silent-fetch", "ss"}, {"w", "w-setup-late", ""},
+			{"t", "refresh-silent", ""}, {"w", "w-refresh-silent", ""}, {"t", "refresh-silent", ""}}
 		for pass := 0; pass < 2; pass++ {
 			for i := len(l) - 1; i >= front && len(want) > 0; i-- {
 				if l[i].op != "e2e" || reservedKind(l[i].kind) || (pass == 0) != (l[i].mode == "p" || l[i].mode == "g") {
@@ -212,7 +214,7 @@ func plan(seed int64, n int) []scen {
 // reservedKind: a kind of one of the guaranteed families (never drawn at random).
 func reservedKind(k string) bool {
 	return strings.HasPrefix(k, "late-") || strings.HasPrefix(k, "w-late-") || k == "gen-self-end" ||
-		(strings.HasPrefix(k, "silent-") && k != "silent-ctx") || strings.HasPrefix(k, "setup-") || k == "w-setup-late"
+		(strings.HasPrefix(k, "silent-") && k != "silent-ctx") || strings.HasPrefix(k, "setup-") || k == "w-setup-late" || strings.HasSuffix(k, "refresh-silent")
 }
 
 // argPrefix is what the parent prints for a scenario that never produced its line.
@@ -249,7 +251,7 @@ func runScenario(sc scen) result {
 	switch {
 	case sc.variant == "ss":
 		return runSS(sc)
-	case strings.HasPrefix(sc.kind, "setup-") || sc.kind == "w-setup-late":
+	case strings.HasPrefix(sc.kind, "setup-") || sc.kind == "w-setup-late" || strings.HasSuffix(sc.kind, "refresh-silent"):
 		return runCR(sc)
 	case sc.mode == "w":
 		return runW(sc)
